@@ -426,7 +426,7 @@ func c10Items(tier string, mk func(tier string, tags map[string]int, focus []str
 func init() {
 	Register(&Prop{
 		ID:    "C10",
-		Rule:  "one execution = one record case: record schema Struct{s,i,l:[]string,n:Struct{s2,b2[,d:Struct{s3,i3}]}} × struct-tag assignment (per field none | zog | source | both | source with [] suffix | foreign tags whose key ends in the source tag name | zog tag containing a comma | (uniform only) renamed to a sibling's schema key; ≤2 fields deviating × ≤1 focus unit, and the seven uniform assignments × ≤2 focus units) × front end {Go map, zjson, zhttp JSON, zhttp JSON of unknown length, form, query, env} (+Validate for Go values) × focus units over Required × tests × input classes × identity and reversed field visit order at every struct visit (both relative orders of any two fields); oracle: issue keys/paths == documented key chain, map invariants, $first == first recorded issue, sanitizers; plus IssuePath overrides at root/field/required/element tests, and IssuePath on a passing test next to PostTransform errors / required issues of the same node, a sibling, the record, or a later call; non-trivial = every expressible case; distinct = distinct (front end, mode, tags, expected issues). plus, for sequences whose first call parses the record through a front end, " + callsRule,
+		Rule:  "one execution = one record case: record schema Struct{s,i,l:[]string,n:Struct{s2,b2[,d:Struct{s3,i3}]}} × struct-tag assignment (per field none | zog | source | both | source with [] suffix | foreign tags whose key ends in the source tag name | zog tag containing a comma | (uniform only) renamed to a sibling's schema key; ≤2 fields deviating × ≤1 focus unit, and the seven uniform assignments × ≤2 focus units) × front end {Go map, zjson, zhttp JSON, zhttp JSON of unknown length, form, query, env} (+Validate for Go values) × focus units over Required × tests × input classes × identity and reversed field visit order at every struct visit (both relative orders of any two fields); oracle: issue keys/paths == documented key chain, map invariants, $first == first recorded issue, sanitizers; plus IssuePath overrides at root/field/required/element tests, and IssuePath on a passing test next to PostTransform errors / required issues of the same node, a sibling, the record, or a later call; non-trivial = every expressible case; distinct = distinct (front end, mode, tags, expected issues). plus, for sequences whose first call parses the record through a front end (its result kept, or handed back through Collect* / Sanitize*AndCollect), " + callsRule,
 		Floor: 50,
 		Bound: func(tier string) string {
 			if tier == "thorough" {
@@ -442,7 +442,7 @@ func init() {
 			items := c10Items(tier, c10Scenario)
 			items = append(items, Item{Name: "issuepath", MaxDevs: -1, Run: c10IssuePathScenario})
 			// keys must not depend on what earlier calls read: sequences that start with a record parsed through any front end
-			items = append(items, callsItemsFiltered(tier, "C10", func(class string) bool { return strings.HasPrefix(class, "record") }, "depends-on-history", "nested-call-differs", "earlier-result-changed")...)
+			items = append(items, callsItemsOpt(tier, "C10", func(class string) bool { return strings.HasPrefix(class, "record") }, true, "depends-on-history", "nested-call-differs", "earlier-result-changed")...)
 			return items
 		},
 	})
